@@ -128,7 +128,18 @@ func TestC10Stateful(t *testing.T) {
 						wh.desc += "+" + pw.desc
 					}
 				}
-				r.opRegister(wh, delta, name, owner, rapid.SampledFrom(lifetimes).Draw(rt, "life"))
+				life := rapid.SampledFrom(lifetimes).Draw(rt, "life")
+				if rapid.IntRange(0, 6).Draw(rt, "byForwardingContract") == 0 {
+					if forwarder == (util.Uint160{}) {
+						forwarder = r.c.Deploy(chainkit.Probe("reenter", ""), nil)
+						r.names[forwarder] = "forwarder"
+						owners = append(owners, forwarder)
+					}
+					if r.opRegisterForward(wh, delta, name, forwarder, rapid.SampledFrom(owners[:3]).Draw(rt, "finalOwner"), life) {
+						break
+					}
+				}
+				r.opRegister(wh, delta, name, owner, life)
 			case "transfer":
 				name := pick("name", nnsUniverse[2:])
 				wh, ok := ownerWho(name)
